@@ -4,6 +4,10 @@ import (
 	"bytes"
 	"encoding/binary"
 	"fmt"
+	"github.com/polynetwork/poly/core/payload"
+	"github.com/polynetwork/poly/native/service/cross_chain_manager/consensus_vote"
+	"github.com/polynetwork/poly/native/service/governance/side_chain_manager"
+	"github.com/polynetwork/poly/native/states"
 	"sort"
 	"strings"
 
@@ -212,6 +216,8 @@ func (s *Sim) OnTx(m *Model, t *TxTrace) {
 		}
 	case "regcand", "regchain", "updchain", "quitchain", "regrelayer", "rmrelayer", "unregcand", "quitnode":
 		s.onRequest(m, t, signer, okS)
+	case "updatefee":
+		s.onUpdateFee(t, signer)
 	case "regasset":
 		if !witnessed(t, signer) && (t.OK || !noWrites(t)) {
 			s.R.Fail("C18", "owner-op-without-witness", "%v succeeded without the named operator's witness", st)
@@ -796,5 +802,67 @@ func (s *Sim) onAddSig(m *Model, t *TxTrace, signer common.Address) {
 		r.Probe("sig_quorum_emitted")
 	} else if n >= need {
 		r.Probe("sig_after_quorum")
+	}
+}
+
+// ---- C17 (records are written under the key their parameters name): fee voting ------------
+// A fee vote names (chain, round). The round it belongs to is the quoted current round, or the
+// next one when this very call closes a timed-out round (more than UPDATE_FEE_TIMEOUT seconds
+// after the round's first vote). The per-round vote record and the per-round proposal record
+// the transaction writes must be those of that round, never of another one.
+func (s *Sim) onUpdateFee(t *TxTrace, voter common.Address) {
+	r := s.R
+	st := t.P.Step
+	chainID := ChainID(st.Arg(0))
+	ic, ok := t.Tx.Payload.(*payload.InvokeCode)
+	if !ok {
+		return
+	}
+	ip := new(states.ContractInvokeParam)
+	if ip.Deserialization(common.NewZeroCopySource(ic.Code)) != nil {
+		return
+	}
+	p := new(side_chain_manager.UpdateFeeParam)
+	if p.Deserialization(common.NewZeroCopySource(ip.Args)) != nil {
+		return
+	}
+	if !witnessed(t, voter) {
+		if t.OK || !noWrites(t) {
+			r.Fail("C18", "vote-without-witness", "%v succeeded without the voter's witness", st)
+		}
+		return
+	}
+	cur := t.Pre.FeeView(chainID)
+	cons, _ := t.Pre.Consensus()
+	if p.View != cur || !cons[voter] {
+		if !noWrites(t) {
+			r.Fail("C25", "vote-by-non-validator-counted", "%v (quoting round %d, current round %d, validator=%v) changed state", st, p.View, cur, cons[voter])
+		}
+		r.Probe("fee_vote_refused")
+		return
+	}
+	round := cur
+	if start := t.Pre.FeeRoundStart(chainID, cur); start != 0 && t.Time-start > side_chain_manager.UPDATE_FEE_TIMEOUT {
+		round = cur + 1
+		r.Probe("fee_vote_closes_timed_out_round")
+	}
+	if !t.OK {
+		r.Fail("C25", "valid-vote-rejected", "%v: a current validator's fee vote for the current round %d was rejected", st, cur)
+		return
+	}
+	votePrefix := string(rawKey(chain.CrossChain, []byte(consensus_vote.VOTE_INFO+side_chain_manager.UPDATE_FEE)))
+	infoPrefix := string(rawKey(chain.SideChainManager, []byte(side_chain_manager.FEE_INFO)))
+	for _, k := range sortedKeys(t.Writes) {
+		for kind, prefix := range map[string]string{"vote record": votePrefix, "proposal record": infoPrefix} {
+			if !strings.HasPrefix(k, prefix) || len(k) != len(prefix)+16 {
+				continue
+			}
+			c := binary.LittleEndian.Uint64([]byte(k[len(prefix):]))
+			v := binary.LittleEndian.Uint64([]byte(k[len(prefix)+8:]))
+			if c != chainID || v != round {
+				r.Fail("C17", "record-written-under-other-parameters", "%v belongs to fee round %d of chain %d but wrote the %s of round %d of chain %d", st, round, chainID, kind, v, c)
+			}
+			r.Probe("fee_record_key_checked")
+		}
 	}
 }
